@@ -376,10 +376,17 @@ class ExcelOpxWrapperNoData(ExcelOpxWrapper):
 
     class OpxRange(_OpxRange):
         def __new__(cls, range_data):
+            formulas = range_data.formula
+            if formulas is None:
+                # range overlaps only part of a CSE Array formula, the values
+                # of formula cells are their formula text
+                formulas = tuple(
+                    tuple(isinstance(v, str) and v.startswith('=') for v in row)
+                    for row in range_data.values)
             values = tuple(
                 tuple(ExcelOpxWrapperNoData.excel_value(*cell)
                       for cell in zip(row_f, row_v))
-                for row_f, row_v in zip(range_data.formula, range_data.values)
+                for row_f, row_v in zip(formulas, range_data.values)
             )
             return ExcelWrapper.RangeData.__new__(
                 cls, range_data.address, range_data.formula, values)
